@@ -7,17 +7,18 @@
    of the version objects, the copy constructor's user_call(7) (throw point of `new T( **data )`),
    yields of the drain loops.
 
-   Invisible (un-instrumented std::shared_ptr): reading / assigning the two lr copies and the
-   reference counts.  They are executed by a thread between two of its visible operations; under the
-   baton scheduler that code runs in the step of the visible operation that *precedes* it, and the
-   model does the same:
-     - reader (lock_shared, lock): the copy `rside` is read in the step of `load readingLeft`; the
-       access window stays open (ghost [nrd] of that copy) until the thread's counter decrement;
-     - writer (modify): the first copy is assigned in the step of `load readingLeft` and its window
-       stays open (ghost [wopen]) until `store readingLeft`; the second copy is assigned in the step
-       of the successful last drain load, window open until the inner `unlock`.
-   A window opened while a conflicting one is open on the same copy is a data race on the
-   shared_ptr object: ghost counter [races] (no event: the instrumentation cannot see it).
+   The two std::shared_ptr objects of the inner lr_guarded (m_left, m_right: objects 7, 8) are observed through the
+   harness wrapper vstd::shared_ptr (harness/cow_extra.hpp): a copy made FROM one of them (lock_shared's
+   `return *slock` / `retval = *slock`) is a read window K_RD_BEGIN .. K_RD_END on it (the copy is made at the
+   closing edge), an assignment TO one of them (the commit lambda's `sptr = newPtr`) is a write window
+   K_WR_BEGIN .. K_WR_END (the old value is released - possibly destroying its version - and the new one stored
+   at the closing edge); the wrapper reports overlaps as K_FAULT 1 / 2 / 3 on the object ([xrd], [xwr] of a copy).
+   Still invisible: lock()'s `**data` (operator* of the shared_ptr object; the payload read that follows is
+   visible) and the reference counts.  Ghost, for the proof: the registration windows of the left-right protocol
+   - reader: from `load readingLeft` to its counter decrement ([nrd] of the copy [rside]); writer: from
+   `load readingLeft` to `store readingLeft` for the first copy, from the successful last drain load to the inner
+   `unlock` for the second ([wopen]) - the observable windows lie inside them; a registration window opened while
+   a conflicting one is open is counted in the ghost [races].
 
    Version heap: vid |-> {content; published; refs; freed; open read windows; dirty}.  refs counts
    the lr copies and snapshot slots that hold the version (std::shared_ptr's count, modelled);
@@ -79,11 +80,11 @@ Inductive pc :=
 (* through a write handle: write, incr, read *)
 | HW_wb | HW_we | HI_rb | HI_re | HI_wb | HI_we | HR_rb | HR_re
 (* deleter::operator(): lr_guarded::modify with the assigning lambda, then unlock outer *)
-| W_lock | W_ldr | W_str | W_ldc | W_d1 | W_y1 | W_stc | W_d2 | W_y2 | W_unlock | W_ounlock
+| W_lock | W_ldr | W_a1b | W_a1e | W_str | W_ldc | W_d1 | W_y1 | W_stc | W_d2 | W_y2 | W_a2b | W_a2e | W_unlock | W_ounlock
 (* cancel(): unlock outer (then delete the private copy) *)
 | C_unlock
 (* lock_shared(): inner lock_shared, copy the shared_ptr, release *)
-| S_ldc | S_inc | S_ldr | S_dec
+| S_ldc | S_inc | S_ldr | S_rb | S_re | S_dec
 (* read through a snapshot *)
 | SR_rb | SR_re.
 
@@ -100,6 +101,8 @@ Record loc := Loc {
   prog : list op; at_ : pc;
   wsl : list (option nat);       (* write-handle slots: the handle's private version *)
   ssl : list (option snap);      (* snapshot slots *)
+  nsl : list bool;               (* write-handle slots that hold a NULL handle object (moved-from): its unique_ptr is
+                                    null and its deleter's unique_lock owns nothing; wsl is None there *)
   sl : nat;                      (* slot of the current operation *)
   rcnt : bool; rside : bool;     (* inner lock_shared: countingLeft / readingLeft as loaded *)
   cv : nat;                      (* version the current operation works on *)
@@ -114,7 +117,10 @@ Record ver := Ver { content : Z; published : bool; refs : nat; freed : bool; vrd
                     vseq : nat (* ghost: position in the commit order (0: initial; private: 0) *) }.
 (* one of the two copies of the inner lr_guarded: the version its shared_ptr holds;
    ghost: writer window open, number of open reader windows *)
-Record lrcopy := LC { cvid : nat; wopen : bool; nrd : Z }.
+Record lrcopy := LC { cvid : nat; wopen : bool; nrd : Z;
+                      (* as the harness wrapper (cow_extra.hpp) sees the shared_ptr object: open read windows,
+                         a write window open *)
+                      xrd : Z; xwr : bool }.
 
 (* ghost phase of the inner writer protocol (as in LRModel): PA idle / before the flip / after the
    second drain, PC1 flipped and first drain not yet passed, PC2 first drain passed *)
@@ -141,6 +147,7 @@ Record glob := Glob {
 
 Definition O_OM := 1. Definition O_IM := 2.
 Definition O_RL := 3. Definition O_CL := 4. Definition O_LC := 5. Definition O_RC := 6.
+Definition O_SL (x : bool) : Z := if x then 7 else 8.   (* the two shared_ptr objects m_left, m_right *)
 Definition O_V (v : nat) : Z := 10 + Z.of_nat v.
 
 Definition b2z (b : bool) : Z := if b then 1 else 0.
@@ -242,41 +249,69 @@ Definition touch (g : glob) (v : nat) : glob * list ev :=
 (* ---- the invisible shared_ptr accesses (see the header comment) ---- *)
 (* a reader opens its window on copy x *)
 Definition rd_open (g : glob) (x : bool) : glob :=
-  let c := cp g x in set_cp g x (LC (cvid c) (wopen c) (nrd c + 1)) (if wopen c then 1%nat else O).
+  let c := cp g x in set_cp g x (LC (cvid c) (wopen c) (nrd c + 1) (xrd c) (xwr c)) (if wopen c then 1%nat else O).
 Definition rd_close (g : glob) (x : bool) : glob :=
-  let c := cp g x in set_cp g x (LC (cvid c) (wopen c) (nrd c - 1)) O.
-(* the writer assigns `sptr = newPtr` on copy x: window opens; the old version loses a reference *)
-Definition wr_assign (g : glob) (x : bool) (v : nat) : glob :=
+  let c := cp g x in set_cp g x (LC (cvid c) (wopen c) (nrd c - 1) (xrd c) (xwr c)) O.
+(* the writer is about to assign copy x (ghost window: from here to [wr_close]) *)
+Definition wr_open (g : glob) (x : bool) : glob :=
   let c := cp g x in
-  let g1 := set_cp g x (LC v true (nrd c)) ((if 0 <? nrd c then 1%nat else O) + (if wopen c then 1%nat else O)) in
-  decref (incref g1 v) (cvid c).
+  set_cp g x (LC (cvid c) true (nrd c) (xrd c) (xwr c)) ((if 0 <? nrd c then 1%nat else O) + (if wopen c then 1%nat else O)).
 Definition wr_close (g : glob) (x : bool) : glob :=
-  let c := cp g x in set_cp g x (LC (cvid c) false (nrd c)) O.
+  let c := cp g x in set_cp g x (LC (cvid c) false (nrd c) (xrd c) (xwr c)) O.
+
+(* ---- the accesses to the two shared_ptr objects as the wrapper of harness/cow_extra.hpp shows them ---- *)
+Definition set_cpf (g : glob) (x : bool) (c : lrcopy) (nf : nat) : glob :=
+  Glob (omtx g) (imtx g) (rl g) (cl g) (lc g) (rc g) (if x then c else cleft g) (if x then cright g else c) (heap g) (next g)
+       (plan g) (calls g) (nf + faults g) (created g) (destroyed g) (races g) (committed g) (ncommit g) (nret g) (applied g)
+       (initv g) (gph g) (glcl g).
+Definition sfault_evs (x : bool) (codes : list Z) : list ev := map (fun c => E K_FAULT (O_SL x) c) codes.
+(* copy FROM slot x: read window; the copy is made at the end edge *)
+Definition srd_begin (g : glob) (x : bool) : glob * list ev :=
+  let c := cp g x in
+  let fs := if xwr c then [2] else [] in
+  (set_cpf g x (LC (cvid c) (wopen c) (nrd c) (xrd c + 1) (xwr c)) (length fs), sfault_evs x fs ++ [E K_RD_BEGIN (O_SL x) 0]).
+Definition srd_end (g : glob) (x : bool) : glob :=
+  let c := cp g x in set_cpf g x (LC (cvid c) (wopen c) (nrd c) (xrd c - 1) (xwr c)) O.
+(* assignment TO slot x: write window; the old value is released and the new one stored at the end edge *)
+Definition swr_begin (g : glob) (x : bool) : glob * list ev :=
+  let c := cp g x in
+  let fs := (if 0 <? xrd c then [1] else []) ++ (if xwr c then [3] else []) in
+  (set_cpf g x (LC (cvid c) (wopen c) (nrd c) (xrd c) true) (length fs), sfault_evs x fs ++ [E K_WR_BEGIN (O_SL x) 0]).
+(* `sptr = newPtr` takes effect: copy x holds v, the version it held loses a reference *)
+Definition sl_assign (g : glob) (x : bool) (v : nat) : glob :=
+  let c := cp g x in
+  decref (incref (set_cpf g x (LC v (wopen c) (nrd c) (xrd c) false) O) v) (cvid c).
 
 Definition zmem (k : Z) (l : list Z) : bool := existsb (Z.eqb k) l.
 
 (* ---- local-state setters ---- *)
 Definition set_at (l : loc) (p : pc) : loc :=
-  Loc (prog l) p (wsl l) (ssl l) (sl l) (rcnt l) (rside l) (cv l) (lrl l) (lcl l) (tmp l) (ced l) (cbase l) (need l).
+  Loc (prog l) p (wsl l) (ssl l) (nsl l) (sl l) (rcnt l) (rside l) (cv l) (lrl l) (lcl l) (tmp l) (ced l) (cbase l) (need l).
 Definition set_tmp (l : loc) (p : pc) (v : Z) : loc :=
-  Loc (prog l) p (wsl l) (ssl l) (sl l) (rcnt l) (rside l) (cv l) (lrl l) (lcl l) v (ced l) (cbase l) (need l).
+  Loc (prog l) p (wsl l) (ssl l) (nsl l) (sl l) (rcnt l) (rside l) (cv l) (lrl l) (lcl l) v (ced l) (cbase l) (need l).
 Definition set_cv (l : loc) (p : pc) (v : nat) : loc :=
-  Loc (prog l) p (wsl l) (ssl l) (sl l) (rcnt l) (rside l) v (lrl l) (lcl l) (tmp l) (ced l) (cbase l) (need l).
+  Loc (prog l) p (wsl l) (ssl l) (nsl l) (sl l) (rcnt l) (rside l) v (lrl l) (lcl l) (tmp l) (ced l) (cbase l) (need l).
 Definition set_rcnt (l : loc) (p : pc) (b : bool) : loc :=
-  Loc (prog l) p (wsl l) (ssl l) (sl l) b (rside l) (cv l) (lrl l) (lcl l) (tmp l) (ced l) (cbase l) (need l).
+  Loc (prog l) p (wsl l) (ssl l) (nsl l) (sl l) b (rside l) (cv l) (lrl l) (lcl l) (tmp l) (ced l) (cbase l) (need l).
+Definition set_rside (l : loc) (p : pc) (b : bool) : loc :=
+  Loc (prog l) p (wsl l) (ssl l) (nsl l) (sl l) (rcnt l) b (cv l) (lrl l) (lcl l) (tmp l) (ced l) (cbase l) (need l).
 Definition set_lrl (l : loc) (p : pc) (b : bool) : loc :=
-  Loc (prog l) p (wsl l) (ssl l) (sl l) (rcnt l) (rside l) (cv l) b (lcl l) (tmp l) (ced l) (cbase l) (need l).
+  Loc (prog l) p (wsl l) (ssl l) (nsl l) (sl l) (rcnt l) (rside l) (cv l) b (lcl l) (tmp l) (ced l) (cbase l) (need l).
 Definition set_lcl (l : loc) (p : pc) (b : bool) : loc :=
-  Loc (prog l) p (wsl l) (ssl l) (sl l) (rcnt l) (rside l) (cv l) (lrl l) b (tmp l) (ced l) (cbase l) (need l).
+  Loc (prog l) p (wsl l) (ssl l) (nsl l) (sl l) (rcnt l) (rside l) (cv l) (lrl l) b (tmp l) (ced l) (cbase l) (need l).
 Definition set_wsl (l : loc) (p : pc) (w : list (option nat)) : loc :=
-  Loc (prog l) p w (ssl l) (sl l) (rcnt l) (rside l) (cv l) (lrl l) (lcl l) (tmp l) (ced l) (cbase l) (need l).
+  Loc (prog l) p w (ssl l) (nsl l) (sl l) (rcnt l) (rside l) (cv l) (lrl l) (lcl l) (tmp l) (ced l) (cbase l) (need l).
 Definition set_ssl (l : loc) (p : pc) (s : list (option snap)) : loc :=
-  Loc (prog l) p (wsl l) s (sl l) (rcnt l) (rside l) (cv l) (lrl l) (lcl l) (tmp l) (ced l) (cbase l) (need l).
+  Loc (prog l) p (wsl l) s (nsl l) (sl l) (rcnt l) (rside l) (cv l) (lrl l) (lcl l) (tmp l) (ced l) (cbase l) (need l).
 
+Definition set_nsl (l : loc) (n : list bool) : loc :=
+  Loc (prog l) (at_ l) (wsl l) (ssl l) n (sl l) (rcnt l) (rside l) (cv l) (lrl l) (lcl l) (tmp l) (ced l) (cbase l) (need l).
+(* does write slot s hold a null (moved-from) handle object? *)
+Definition null_slot (l : loc) (s : nat) : bool := match nth_error (nsl l) s with Some true => true | _ => false end.
 Definition cur_sn (l : loc) : option snap :=
   match nth_error (ssl l) (sl l) with Some (Some s) => Some s | _ => None end.
 Definition set_ced (l : loc) (p : pc) (e : list edit) : loc :=
-  Loc (prog l) p (wsl l) (ssl l) (sl l) (rcnt l) (rside l) (cv l) (lrl l) (lcl l) (tmp l) e (cbase l) (need l).
+  Loc (prog l) p (wsl l) (ssl l) (nsl l) (sl l) (rcnt l) (rside l) (cv l) (lrl l) (lcl l) (tmp l) e (cbase l) (need l).
 
 Definition tstep (t c : nat) (g : glob) (l : loc) : option (glob * loc * list ev) :=
   let goto p := set_at l p in
@@ -288,16 +323,21 @@ Definition tstep (t c : nat) (g : glob) (l : loc) : option (glob * loc * list ev
       let inv := E K_INVOKE 0 (opcode o) in
       (* start an operation on slot s working on version v *)
       let start p s v ws ss tm ed ba nd :=
-          Loc r p ws ss s (rcnt l) (rside l) v (lrl l) (lcl l) tm ed ba nd in
+          Loc r p ws ss (nsl l) s (rcnt l) (rside l) v (lrl l) (lcl l) tm ed ba nd in
       let same p s v := start p s v (wsl l) (ssl l) (tmp l) (ced l) (cbase l) (need l) in
       let refuse := Some (g, same Idle (sl l) (cv l), [inv; ret_ev (-1)]) in
       (* an operation through a handle on version v begins with CowT::touch() *)
+      (* cancel / destruction of a null (moved-from) handle object: nothing happens; the object goes away when destroyed *)
+      let nullop s (keep : bool) :=
+          if null_slot l s
+          then Some (g, set_nsl (same Idle (sl l) (cv l)) (if keep then nsl l else upd (nsl l) s false), [inv; ret_ev 0])
+          else refuse in
       let touched p s v tm := let '(g1, es) := touch g v in
                               Some (g1, start p s v (wsl l) (ssl l) tm (ced l) (cbase l) (need l), inv :: es) in
       match o with
       | Lock s =>
         match nth_error (wsl l) s with
-        | Some None => Some (g, same L_lock s (cv l), [inv])
+        | Some None => if null_slot l s then refuse else Some (g, same L_lock s (cv l), [inv])
         | _ => refuse
         end
       | Write s v =>
@@ -321,7 +361,7 @@ Definition tstep (t c : nat) (g : glob) (l : loc) : option (glob * loc * list ev
         | Some (Some h) =>
           Some (set_heap g (fupd (heap g) h (set_pub (heap g h))) O,
                 start W_lock s h (upd (wsl l) s None) (ssl l) (tmp l) (ced l) (cbase l) (need l), [inv])
-        | _ => refuse
+        | _ => nullop s false
         end
       | ReleaseUnw s =>
         (* the same destructor, run during stack unwinding *)
@@ -329,18 +369,21 @@ Definition tstep (t c : nat) (g : glob) (l : loc) : option (glob * loc * list ev
         | Some (Some h) =>
           Some (set_heap g (fupd (heap g) h (set_pub (heap g h))) O,
                 start W_lock s h (upd (wsl l) s None) (ssl l) (tmp l) (ced l) (cbase l) (need l), [inv])
-        | _ => refuse
+        | _ => nullop s false
         end
       | Cancel s =>
         match nth_error (wsl l) s with
         | Some (Some h) =>
           Some (g, start C_unlock s h (upd (wsl l) s None) (ssl l) (tmp l) (ced l) (cbase l) (need l), [inv])
-        | _ => refuse
+        | _ => nullop s true
         end
       | Move a b =>
         match nth_error (wsl l) a, nth_error (wsl l) b with
         | Some (Some h), Some None =>
-          Some (g, start Idle (sl l) (cv l) (upd (upd (wsl l) b (Some h)) a None) (ssl l) (tmp l) (ced l) (cbase l) (need l),
+          (* unique_ptr move construction: ownership (pointer and unique_lock) goes to b, a keeps a null handle *)
+          if null_slot l b then refuse else
+          Some (g, set_nsl (start Idle (sl l) (cv l) (upd (upd (wsl l) b (Some h)) a None) (ssl l) (tmp l) (ced l) (cbase l) (need l))
+                           (upd (nsl l) a true),
                 [inv; ret_ev 0])
         | _, _ => refuse
         end
@@ -382,7 +425,7 @@ Definition tstep (t c : nat) (g : glob) (l : loc) : option (glob * loc * list ev
   | L_ldr =>
     (* ... and `**data` : the copy readers are directed to is dereferenced *)
     Some (rd_open g (rl g),
-          Loc (prog l) L_call (wsl l) (ssl l) (sl l) (rcnt l) (rl g) (cvid (cp g (rl g))) (lrl l) (lcl l) (tmp l)
+          Loc (prog l) L_call (wsl l) (ssl l) (nsl l) (sl l) (rcnt l) (rl g) (cvid (cp g (rl g))) (lrl l) (lcl l) (tmp l)
               [] (committed g) (need l),
           [ESC K_LOAD O_RL (b2z (rl g))])
   (* std::unique_ptr<T> val(new T( **data )):  CowT(const CowT& o) = user_call(7); o.touch(); o.p.read() *)
@@ -428,8 +471,10 @@ Definition tstep (t c : nat) (g : glob) (l : loc) : option (glob * loc * list ev
     | Some _ => None
     end
   | W_ldr =>
-    (* local_readingLeft = m_readingLeft.load(); func( *firstWriteLocation ) *)
-    Some (wr_assign g (negb (rl g)) (cv l), set_lrl l W_str (rl g), [ESC K_LOAD O_RL (b2z (rl g))])
+    (* local_readingLeft = m_readingLeft.load(); then func( *firstWriteLocation ): sptr = newPtr *)
+    Some (wr_open g (negb (rl g)), set_lrl l W_a1b (rl g), [ESC K_LOAD O_RL (b2z (rl g))])
+  | W_a1b => let '(g1, es) := swr_begin g (negb (lrl l)) in Some (g1, goto W_a1e, es)
+  | W_a1e => Some (sl_assign g (negb (lrl l)) (cv l), goto W_str, [E K_WR_END (O_SL (negb (lrl l))) 0])
   | W_str =>
     Some (flip_rl (wr_close g (negb (lrl l))) (negb (lrl l)) (cv l) (ced l), goto W_ldc,
           [ESC K_STORE O_RL (b2z (negb (lrl l)))])
@@ -445,9 +490,11 @@ Definition tstep (t c : nat) (g : glob) (l : loc) : option (glob * loc * list ev
     let v := ctr g (lcl l) in
     if v =? 0
     then (* ... func( *secondWriteLocation ) *)
-         Some (wr_assign (set_ph g PA (glcl g)) (lrl l) (cv l), goto W_unlock, [ESC K_LOAD (o_ctr (lcl l)) v])
+         Some (wr_open (set_ph g PA (glcl g)) (lrl l), goto W_a2b, [ESC K_LOAD (o_ctr (lcl l)) v])
     else Some (g, goto W_y2, [ESC K_LOAD (o_ctr (lcl l)) v])
   | W_y2 => Some (g, goto W_d2, [E K_YIELD 0 0])
+  | W_a2b => let '(g1, es) := swr_begin g (lrl l) in Some (g1, goto W_a2e, es)
+  | W_a2e => Some (sl_assign g (lrl l) (cv l), goto W_unlock, [E K_WR_END (O_SL (lrl l)) 0])
   | W_unlock => Some (set_imtx (wr_close g (lrl l)) None, goto W_ounlock, [E K_UNLOCK O_IM 0])
   (* if (m_lock.owns_lock()) m_lock.unlock(); *)
   | W_ounlock => Some (set_nret (set_omtx g None) (S (nret g)), goto Idle, [E K_UNLOCK O_OM 0; ret_ev 0])
@@ -456,12 +503,15 @@ Definition tstep (t c : nat) (g : glob) (l : loc) : option (glob * loc * list ev
   (* lock_shared(): auto slock = m_data.lock_shared(); return *slock; *)
   | S_ldc => Some (g, set_rcnt l S_inc (cl g), [ESC K_LOAD O_CL (b2z (cl g))])
   | S_inc => let v := ctr g (rcnt l) + 1 in Some (set_ctr g (rcnt l) v, goto S_ldr, [ESC K_RMW (o_ctr (rcnt l)) v])
-  | S_ldr =>
-    let v := cvid (cp g (rl g)) in
-    Some (incref (rd_open g (rl g)) v,
-          Loc (prog l) S_dec (wsl l) (upd (ssl l) (sl l) (Some (Snap v (need l) (content (heap g v))))) (sl l) (rcnt l) (rl g)
-              v (lrl l) (lcl l) (tmp l) (ced l) (cbase l) (need l),
-          [ESC K_LOAD O_RL (b2z (rl g))])
+  | S_ldr => Some (rd_open g (rl g), set_rside l S_rb (rl g), [ESC K_LOAD O_RL (b2z (rl g))])
+  (* return *slock: the shared_ptr object the reader was directed to is copied *)
+  | S_rb => let '(g1, es) := srd_begin g (rside l) in Some (g1, goto S_re, es)
+  | S_re =>
+    let v := cvid (cp g (rside l)) in
+    Some (incref (srd_end g (rside l)) v,
+          Loc (prog l) S_dec (wsl l) (upd (ssl l) (sl l) (Some (Snap v (need l) (content (heap g v))))) (nsl l) (sl l) (rcnt l)
+              (rside l) v (lrl l) (lcl l) (tmp l) (ced l) (cbase l) (need l),
+          [E K_RD_END (O_SL (rside l)) 0])
   | S_dec =>
     let v := ctr g (rcnt l) - 1 in
     Some (set_ctr (rd_close g (rside l)) (rcnt l) v, goto Idle, [ESC K_RMW (o_ctr (rcnt l)) v; ret_ev 0])
@@ -473,11 +523,11 @@ Definition tstep (t c : nat) (g : glob) (l : loc) : option (glob * loc * list ev
 Definition fin (l : loc) : bool := match at_ l, prog l with Idle, [] => true | _, _ => false end.
 
 Definition init_loc (nw ns : nat) (p : list op) : loc :=
-  Loc p Idle (repeat None nw) (repeat None ns) O true true O true true 0 [] O O.
+  Loc p Idle (repeat None nw) (repeat None ns) (repeat false nw) O true true O true true 0 [] O O.
 Definition no_ver : ver := Ver 0 false O false 0 false O.
 Definition init_heap (x : Z) : nat -> ver := fun v => match v with O => Ver x true 2 false 0 false O | S _ => no_ver end.
 Definition init_glob (x : Z) (pl : list Z) : glob :=
-  Glob None None true true 0 0 (LC O false 0) (LC O false 0) (init_heap x) 1 pl 0 O 1 0 O O O O [] x PA true.
+  Glob None None true true 0 0 (LC O false 0 0 false) (LC O false 0 0 false) (init_heap x) 1 pl 0 O 1 0 O O O O [] x PA true.
 Definition init (nw ns : nat) (x : Z) (pl : list Z) (progs : list (list op)) : sys glob loc :=
   Sys (init_glob x pl) (map (init_loc nw ns) progs).
 
